@@ -46,6 +46,10 @@ func ToRune
   loop 0 inv i <= pos
   loop 0 dec i + 1
 
+func Prioritized
+  nilable v
+  modifies nothing
+
 func TrimLeftSpaceLength
   ensures 0 <= result && result <= len(source)
   ensures forall k int :: 0 <= k && k < result ==> isSpace(source[k])
